@@ -676,6 +676,7 @@ def check_tokens(ctx, prog):
     follow."""
     import tokensim
     decided = set()
+    helpers = {}
     n = 0
     for f in prog.functions:
         if f.get('clsp') != 'asl::Array' or f.get('implicit') or not f.get('body') or f['n'] not in tokensim.MEMBERS:
@@ -684,12 +685,16 @@ def check_tokens(ctx, prog):
             continue
         if f['n'] == 'append' and len(f['params']) == 1 and T(f, T(f, f['params'][0]['t']).get('to') or f['params'][0]['t']).get('recp') != 'asl::Array':
             continue
+        tokensim.HELPERS_RUN.clear()
         try:
             r = tokensim.decide(prog, f, 4)
         except RecursionError:
             r = ('undecided', '', 'recursion limit')
         if r is None:
             continue
+        if r[0] in ('ok', 'bad'):
+            for h in tokensim.HELPERS_RUN:
+                helpers.setdefault(h, set()).add((f.get('file'), f.get('line')))
         role = '%s%s:element objects constructed and destroyed once, sequence as the reference' % (f['n'], f.get('sig') or '')
         if r[0] == 'ok':
             n += 1
@@ -705,6 +710,34 @@ def check_tokens(ctx, prog):
         else:
             ctx.info.setdefault('token_interpretation_fallback', []).append('%s%s: %s' % (f['q'], f.get('sig') or '', r[2]))
     ctx.info['members_decided_by_token_interpretation'] = n
+    # a member interpreted as the callee of decided members, and called by nothing else in the class, was decided with them: its
+    # body ran on every case of its callers (a helper split out of resize() takes the old length as a parameter; only the callers
+    # say what that parameter is)
+    byloc = {}
+    for g in prog.functions:
+        if g.get('clsp') == 'asl::Array' and g.get('body') and g['q'].startswith('asl::Array<int>::'):
+            byloc.setdefault((g.get('file'), g.get('line')), g)
+    callers = {}
+    for loc, g in byloc.items():
+        for e in fn_exprs(g):
+            if e.get('k') == 'call' and e.get('clsp') == 'asl::Array':
+                for h_ in prog.fn(e.get('fn'), e.get('sig')):
+                    hl = (h_.get('file'), h_.get('line'))
+                    if hl in helpers and hl != loc:
+                        callers.setdefault(hl, set()).add(loc)
+    changed = True
+    covered = []
+    while changed:
+        changed = False
+        for hl in helpers:
+            if hl in decided or hl not in byloc or byloc[hl]['n'] in tokensim.MEMBERS:
+                continue
+            if callers.get(hl) and all(c in decided for c in callers[hl]):
+                decided.add(hl)
+                covered.append(byloc[hl]['n'])
+                changed = True
+    if covered:
+        ctx.info['helpers_decided_with_their_callers'] = sorted(covered)
     return decided
 
 
@@ -965,7 +998,34 @@ def check_fits(ctx, prog):
             continue
         if T(f, T(f, f['params'][1]['t']).get('to') or f['params'][1]['t']).get('recp') == 'asl::Array':
             continue
-        sites = [e for e in fn_exprs(f) if e.get('k') == 'call' and (e.get('fn') or '') in ('realloc', 'malloc', '::realloc', '::malloc')]
+        ALLOC = ('realloc', 'malloc', '::realloc', '::malloc')
+        sites = [e for e in fn_exprs(f) if e.get('k') == 'call' and (e.get('fn') or '') in ALLOC]
+        via = None
+        if not sites:
+            # the growth step split out into a member of the class (grow()): the call is the site, the guards at the call decide
+            def allocs(g, depth=0):
+                out = [w for w in fn_exprs(g) if w.get('k') == 'call' and (w.get('fn') or '') in ALLOC]
+                if out or depth >= 2:
+                    return g, out
+                for w in fn_exprs(g):
+                    if w.get('k') == 'call' and w.get('clsp') == 'asl::Array' and alias.is_this_obj(w):
+                        for h_ in prog.fn(w.get('fn'), w.get('sig')):
+                            if h_.get('body') and h_ is not g:
+                                r_ = allocs(h_, depth + 1)
+                                if r_[1]:
+                                    return r_
+                return g, []
+            for w in fn_exprs(f):
+                if w.get('k') == 'call' and w.get('clsp') == 'asl::Array' and alias.is_this_obj(w):
+                    for h_ in prog.fn(w.get('fn'), w.get('sig')):
+                        if h_.get('body') and h_ is not f:
+                            hg, inner = allocs(h_)
+                            if inner:
+                                sites.append(w)
+                                via = (hg, inner[0])
+                                break
+                if sites:
+                    break
         role = 'insert(int,const T &):the block moves only when the element does not fit'
         if role in seen:
             continue
@@ -996,6 +1056,8 @@ def check_fits(ctx, prog):
         ctx.evaluations += 81
         if st == 'holds':
             ctx.ok('C01.fits', f['pq'], role, fwhere(f, e['l']), 'the reallocation is reached only for n + 1 > s on the (n, s) grid (%s points)' % info)
+        elif st == 'fails' and via and any(kind in ('if', 'cond', 'and', 'or') for c, pol, kind in q.Guarded(via[0]).of(via[1])):
+            ctx.undecided('C01.fits', f['pq'], role, fwhere(f, e['l']), 'the call of %s is reached when the element fits, and the reallocation inside it stands under further conditions that are not evaluated here' % via[0]['n'])
         elif st == 'fails':
             ctx.violation('C01.fits', f['pq'], role, fwhere(f, e['l']), 'with %s the element fits, yet the block is reallocated: another handle of the array keeps the old block (reads and its destructor touch freed storage), although nothing had to grow' % ', '.join('%s = %s' % kv for kv in sorted(info.items())))
         else:
